@@ -163,16 +163,38 @@ def _snapshot_module_state():
             except Exception:  # noqa: BLE001
                 pass
 
+    seen_functions = set()
+
+    def add_function(fn):
+        """defaults, function attributes and - through the closure cells - the state a decorator keeps per wrapped
+        function (a history set hoisted from the wrapper into the decorator survives every call, too)"""
+        if id(fn) in seen_functions:
+            return
+        seen_functions.add(id(fn))
+        for d in (fn.__defaults__ or ()):
+            add(d)
+        for d in (fn.__kwdefaults__ or {}).values():
+            add(d)
+        for d in list(vars(fn).values()):
+            add(d)
+            if isinstance(d, types.FunctionType):
+                add_function(d)
+        for cell in fn.__closure__ or ():
+            try:
+                content = cell.cell_contents
+            except ValueError:
+                continue
+            add(content)
+            if isinstance(content, types.FunctionType):
+                add_function(content)
+
     for modname, mod in list(sys.modules.items()):
         if not (modname == "pyrefact" or modname.startswith("pyrefact.")) or mod is None:
             continue
         for name, val in list(vars(mod).items()):
             add(val)
             if isinstance(val, types.FunctionType) and val.__module__ == modname:
-                for d in (val.__defaults__ or ()):
-                    add(d)
-                for d in (val.__kwdefaults__ or {}).values():
-                    add(d)
+                add_function(val)
             elif isinstance(val, type) and val.__module__ == modname:
                 for cval in list(vars(val).values()):
                     add(cval)
